@@ -814,12 +814,23 @@ class Representation:
 
         return np.concatenate(blocks, axis=0)
 
+    def _common_dtype(self):
+        # self.dtype is the dtype of the most recently assigned
+        # generator. The inverse of an integer matrix is stored as a
+        # float array, and generators can have different dtypes, so use
+        # a dtype which can hold all of the generator matrices.
+        if len(self.generators) == 0:
+            return self.dtype
+
+        return np.result_type(*[np.asarray(matrix).dtype
+                                for matrix in self.generators.values()])
+
     def gln_adjoint(self, base_ring=None, dtype=None, **kwargs):
         if base_ring is None:
             base_ring = self.base_ring
 
         if dtype is None:
-            dtype = self.dtype
+            dtype = self._common_dtype()
 
         gln_adjoint = lie.hom.gln_adjoint(
             base_ring=base_ring, dtype=dtype
@@ -833,7 +844,7 @@ class Representation:
             base_ring = self.base_ring
 
         if dtype is None:
-            dtype = self.dtype
+            dtype = self._common_dtype()
 
         sln_adjoint = lie.hom.sln_adjoint(
             base_ring=base_ring, dtype=dtype
